@@ -21,6 +21,9 @@
 package compile
 
 import (
+	"fmt"
+	"math"
+
 	"go.uber.org/thriftrw/ast"
 	"go.uber.org/thriftrw/wire"
 )
@@ -59,6 +62,13 @@ func compileEnum(file string, src *ast.Enum) (*EnumSpec, error) {
 		value := prev + 1
 		if astItem.Value != nil {
 			value = *astItem.Value
+		}
+		if value > math.MaxInt32 || value < math.MinInt32 {
+			return nil, compileError{
+				Target: src.Name + "." + astItem.Name,
+				Line:   astItem.Line,
+				Reason: fmt.Errorf("enum value %v is outside the range of a 32-bit integer", value),
+			}
 		}
 		prev = value
 
